@@ -1,38 +1,39 @@
 ---------------------------- MODULE Trace_Threads ----------------------------
-(* Trace validation for C09.  Forced schedules: Reset {kind,...}; Step {t, a, plan} in executed order; Result {t, ok}. *)
-(* For kind = "factfft" the steps are replayed on Threads.tla with per-call scratch (the claim): the spec then says   *)
-(* that no thread's result is corrupted, so every Result must be ok.  Stress {kind, threads, calls, mismatches}:       *)
-(* free-running threads from a barrier; RaceReport / Crash (sanitizer) have no action.                                 *)
-EXTENDS Integers, Sequences, FiniteSets, TLC, Json, IOUtils
+(* Trace validation for C09, on the actions of Threads.tla themselves (per-call scratch: the claim).                   *)
+(* Forced schedules: Reset {kind,...}; Step {t, a, plan} in executed order; Result {t, ok}.                            *)
+(*   kind = "factfft": interleavings chosen by the driver; kind = "tlcpath": maximal paths of the model's state graph  *)
+(*   exported by TLC (vlib/tlcgraph.py) and imposed on the real threads.  Each Step must be the enabled spec action;   *)
+(*   the spec then says that no thread's result is corrupted, so every Result must be ok.                              *)
+(* Stress {kind, threads, calls, mismatches}: free-running threads from a barrier; RaceReport / Crash (sanitizer)      *)
+(* have no action.                                                                                                     *)
+EXTENDS Threads, TLC, Json, IOUtils
 Log == ndJsonDeserialize(IOEnv.TRACE)
-VARIABLES pc, writer, corrupt, kind, l
+VARIABLES kind, l
 Ev == Log[l]
-Init == TLCSet(1, 0) /\ pc = <<"idle", "idle">> /\ writer = <<0, 0>> /\ corrupt = {} /\ kind = "none" /\ l = 1
+tvars == <<pc, cur, left, writer, corrupt, kind, l>>
+Fresh == /\ pc' = [t \in Thr |-> "idle"] /\ cur' = [t \in Thr |-> CHOOSE p \in Plans : TRUE]
+         /\ left' = [t \in Thr |-> Calls] /\ writer' = [a \in Areas |-> 0] /\ corrupt' = {}
+TInit == TLCSet(1, 0) /\ Init /\ kind = "none" /\ l = 1
 
-TReset == /\ Ev.e = "Reset"
-          /\ pc' = <<"idle", "idle">> /\ writer' = <<0, 0>> /\ corrupt' = {} /\ kind' = Ev.kind
-(* per-call scratch: area of thread t is its own slot t *)
+TReset == /\ Ev.e = "Reset" /\ Fresh /\ kind' = Ev.kind
 TStep ==
-    /\ Ev.e = "Step"
-    /\ IF kind # "factfft" THEN UNCHANGED <<pc, writer, corrupt, kind>>
-       ELSE LET t == Ev.t IN
-            CASE Ev.a = "Begin" -> pc[t] = "idle" /\ pc' = [pc EXCEPT ![t] = "begun"] /\ UNCHANGED <<writer, corrupt, kind>>
-              [] Ev.a = "Mid" -> pc[t] = "begun" /\ pc' = [pc EXCEPT ![t] = "mid"] /\ writer' = [writer EXCEPT ![t] = t]
-                                 /\ UNCHANGED <<corrupt, kind>>
-              [] Ev.a = "End" -> pc[t] = "mid" /\ pc' = [pc EXCEPT ![t] = "idle"]
-                                 /\ corrupt' = (IF writer[t] # t THEN corrupt \cup {t} ELSE corrupt)
-                                 /\ UNCHANGED <<writer, kind>>
+    /\ Ev.e = "Step" /\ kind' = kind
+    /\ IF kind \notin {"factfft", "tlcpath"} THEN UNCHANGED vars
+       ELSE CASE Ev.a = "Begin" -> Begin(Ev.t, Ev.plan)
+              [] Ev.a = "Mid" -> Mid(Ev.t)
+              [] Ev.a = "End" -> End(Ev.t)
 TResult == /\ Ev.e = "Result"
-           /\ (Ev.diverged \/ Ev.ok = (Ev.t \notin corrupt))       \* result preserved under this interleaving
-           /\ UNCHANGED <<pc, writer, corrupt, kind>>
+           /\ Ev.diverged = FALSE                               \* the real threads followed the imposed schedule
+           /\ Ev.ok = (Ev.t \notin corrupt)                     \* result preserved under this interleaving
+           /\ UNCHANGED <<vars, kind>>
 TStress == /\ Ev.e = "Stress"
            /\ Ev.mismatches = 0                                       \* each call returned its single-threaded result
            /\ ("cache_shared" \in DOMAIN Ev) => Ev.cache_shared = 0   \* a plan cache is touched by one thread only
-           /\ UNCHANGED <<pc, writer, corrupt, kind>>
-Next == /\ l <= Len(Log)
-        /\ (TReset \/ TStep \/ TResult \/ TStress)
-        /\ l' = l + 1
-Spec == Init /\ [][Next]_<<pc, writer, corrupt, kind, l>>
+           /\ UNCHANGED <<vars, kind>>
+TNext == /\ l <= Len(Log)
+         /\ (TReset \/ TStep \/ TResult \/ TStress)
+         /\ l' = l + 1
+TSpec == TInit /\ [][TNext]_tvars
 Furthest == IF l > TLCGet(1) THEN TLCSet(1, l) ELSE TRUE
 Accepted == /\ PrintT(<<"FURTHEST", TLCGet(1), Len(Log)>>)
             /\ TLCGet(1) = Len(Log) + 1
